@@ -16,10 +16,10 @@ MANIFEST = {
              "standard ones minus absorbed whitespace); every standard directive switches the corresponding xdoctest flag on; identical "
              "texts pass under both; '# doctest:' is parsed like '# xdoctest:'; the traceback want is recognised with the same message and "
              "the exception check agrees (given the output implication for the compared texts). PARTIAL: 'standard match => xdoctest match' "
-             "is proved for all got/want for the flag settings without ELLIPSIS and wants without <BLANKLINE>, under explicit guards; the "
-             "full guarded statement is kept as a Prop. The UNGUARDED statement is false of the unchanged code: each guard has a "
-             "kernel-checked witness, replayed on the real code, and a known-finding entry (K-C20-a..h). ELLIPSIS through the whitespace "
-             "collapsing, <BLANKLINE> wants, grouping/compile modes and REPL semantics are observed: checker-level differential run "
+             "is proved for all got/want and all four flag settings (none, ELLIPSIS, NORMALIZE_WHITESPACE, both) for wants without "
+             "<BLANKLINE>, under explicit guards (the ELLIPSIS step via C05.ellipsisMatch_collapse; the NORMALIZE_REPR quote step is shown to "
+             "leave a matching pair alone); the full guarded statement is kept as a Prop and reduced to its <BLANKLINE> part. The UNGUARDED statement is false of the unchanged code: each guard has a "
+             "kernel-checked witness, replayed on the real code, and a known-finding entry (K-C20-a..h). <BLANKLINE> wants, grouping/compile modes and REPL semantics are observed: checker-level differential run "
              "against CPython's doctest and xdoctest, and generated standard-syntax doctests kept only if the standard module passes them."),
     'note': ("Trusted: Lean kernel, allowed axioms only; the hand-written model of CPython's doctest.py checker (tied to the running "
              "interpreter's doctest module by this run); the xdoctest checker model (C05/C06, regex texts pinned); CPython's compile/exec and "
@@ -33,7 +33,7 @@ RULE = ("checker level: ops std_vs_xdoc / std_vs_xdoc_nl vs doctest.OutputChecke
         "random pairs; the implication std => xdoctest is evaluated on the real code for every pair, also in the end-to-end shape (standard "
         "want with final newline, xdoctest want without); unit ops for _toAscii, the two blank-line substitutions, the split, _ellipsis_match, "
         "_EXCEPTION_RE.match, _strip_exception_details, the exception check. end-to-end: random standard-syntax doctests of 1..6 examples "
-        "from 50 example kinds x layouts (indentation, prose/blank separators, terminating bare '...', header), wants from REPL-semantics "
+        "from 73 example kinds (incl. option directives on continuation lines with silent neighbours, SyntaxError-family and multi-line tracebacks) x layouts (indentation, prose/blank separators, terminating bare '...', header), wants from REPL-semantics "
         "execution, kept only if doctest.DocTestRunner(optionflags=0) passes; must be collected as one doctest, pass and produce the same "
         "TRACE under xdoctest. non-trivial = standard match with got != want (checker) / a doctest the standard module passes (end-to-end); "
         "distinct = distinct (got, want) / distinct text")
@@ -407,10 +407,20 @@ def unit_suites(ctx, corr):
 
 
 # ------------------------------------------------------------------ end-to-end
-KINDS_PLAIN = [k for k in G.PLAIN if k != 'comment']
+KINDS_PLAIN = list(G.PLAIN)
 
 
 def gen_doc(rng):
+    if rng.random() < 0.2:
+        # a block of silent (want-less, output-less) examples around one example that carries its option
+        # directive on a continuation line, no separators: in xdoctest they share one part unless the
+        # parser breaks the part at the directive
+        pre = [rng.choice(G.SILENT) for _ in range(rng.randint(0, 2))]
+        post = [rng.choice(G.SILENT) for _ in range(rng.randint(0, 2))]
+        kinds = pre + [rng.choice(G.CONT_DIRECTIVE)] + post + [rng.choice(['expr', 'print', 'strexpr', 'assign'])]
+        layout = {'indent': rng.choice(['', '    ']), 'bare_end': sorted(i for i in range(len(kinds)) if rng.random() < 0.15),
+                  'sep': {}, 'header': rng.random() < 0.3}
+        return kinds, layout
     n = rng.randint(1, 6)
     kinds = [rng.choice(KINDS_PLAIN) for _ in range(n)]
     if rng.random() < 0.12:
@@ -533,7 +543,7 @@ def correspondence(ctx, corr):
                                  'stdlib_match_implies_xdoc_match')
     corr.exhaustive = True
     corr.sample({'op': 'std_vs_xdoc', 'got': 'a\n \nb', 'want': 'a\n<BLANKLINE>\nb', 'note': 'one of the exhaustive-style pairs; 4 standard flag subsets'})
-    per = 5000 if ctx.quick else 30000
+    per = 3500 if ctx.quick else 30000
     res = par.pmap(_shard_random, [(ctx.seed, s, per) for s in range(16)])
     for (a, b, c, d, bad), keys, sm in res:
         corr.count('checker:random-mutations', a)
@@ -549,7 +559,7 @@ def correspondence(ctx, corr):
             corr.sample({'op': 'std_vs_xdoc(+_nl)', 'got': g, 'want': w})
     unit_suites(ctx, corr)
     # ---- end to end
-    per = 500 if ctx.quick else 5000
+    per = 350 if ctx.quick else 5000
     res = par.pmap(_shard_e2e, [(ctx.seed, s, per) for s in range(16)])
     for n, tags, bad, keys, samples in res:
         corr.count('e2e:generated', n)
@@ -585,6 +595,7 @@ E2E_WITNESS = {
     'K-C20-f': '>>> print("x\\x1b[0mdone", t(1))  # doctest: +ELLIPSIS\nx...[0mdone 1\n',
     'K-C20-g': '>>> print("u\'x\'", t(1))  # doctest: +ELLIPSIS\nu... 1\n',
     'K-C20-h': '>>> print("a\\rb", t(1))  # doctest: +NORMALIZE_WHITESPACE\na b 1\n',
+    'K-C20-i': '>>> t(1)\n1\n>>> t(2) +\nTraceback (most recent call last):\n    ...\nSyntaxError: invalid syntax\n',
 }
 # (got, want seen by the standard checker, want seen by xdoctest, flag index) : the kernel-checked witnesses of Proofs/C20.lean
 CHECKER_WITNESS = {
@@ -662,6 +673,7 @@ def search(ctx, corr, broken):
     e2e_c += [gen_doc(rng2) for _ in range(400)]
     # every kind alone and in pairs, plain layout
     e2e_c += [([k], {}) for k in KINDS_PLAIN] + [([a, b], {}) for a in KINDS_PLAIN[:12] for b in KINDS_PLAIN[:12]]
+    e2e_c += [([a, b, c, 'expr'], {}) for a in G.SILENT for b in G.CONT_DIRECTIVE for c in G.SILENT[:2]]
     n = 0
     for kinds, layout in e2e_c:
         if n >= 3:
